@@ -223,8 +223,9 @@ structure World where
   seen : List Nat            -- reversed
   atts : List (Nat × Nat)    -- reversed: (time, target)
   mo : Nat
+  evs : List (Event Pay)     -- reversed: every event fed to `step` (checked to be `sequential` at the end)
 
-def World.apply (w : World) (e : Event Pay) : World := { w with st := step w.st e }
+def World.apply (w : World) (e : Event Pay) : World := { w with st := step w.st e, evs := e :: w.evs }
 
 def World.setFiber (w : World) (f : Fiber) : World :=
   { w with fibers := w.fibers.map (fun g => if g.id == f.id then f else g) }
@@ -301,6 +302,7 @@ def World.fireTimer (w : World) : World :=
 def renderRes : Res Pay → String
   | .ok (k, false) => s!"ok:{k}"
   | .ok (k, true) => s!"ign:{k}"
+  | .err (.requestTimeout ms) => s!"err:RequestTimeout({ms})"
   | .err e => "err:" ++ reqErrName e
 
 def render (w : World) (r : Res Pay) : String :=
@@ -321,7 +323,9 @@ def explore : Nat → World → List String
   | 0, _ => ["FUEL"]
   | fuel + 1, w =>
     match w.st.returned with
-    | some r => [render w r]
+    | some r =>
+      -- the schedule this driver fed to `step` must satisfy the hypothesis `Props.C13.Sequential`
+      if sequential (fun _ => false) w.evs.reverse then [render w r] else ["REJECT driver-schedule-not-sequential"]
     | none =>
       let timer : List (Nat × Option (Option Fiber)) := if w.st.sleepArmed then [(w.deadline, some none)] else []
       let dl : List (Nat × Option (Option Fiber)) := match w.reqDeadline with
@@ -339,7 +343,7 @@ def explore : Nat → World → List String
 
 def mkWorld (mode : Mode) (st : St Pay Nat) (interval : Nat) (reqDeadline : Option Nat) : World :=
   { mode := mode, st := st, now := 0, deadline := interval, interval := interval, reqDeadline := reqDeadline,
-    fibers := [{ id := 0, wakeAt := 0, pc := .fresh, lastErr := none }], starts := [0], seen := [], atts := [], mo := 0 }
+    fibers := [{ id := 0, wakeAt := 0, pc := .fresh, lastErr := none }], starts := [0], seen := [], atts := [], mo := 0, evs := [] }
 
 def check (outs : List String) (impl : String) : String :=
   let outs := outs.eraseDups
